@@ -1,32 +1,127 @@
 (** Two generic invariants of call trees: a property of every possible outcome ([Leaves]) and a
     property of every call that can be made ([Calls]); both hold of every run. *)
-From Deserr Require Import Base Pointer Kinds Value Prog.
+From Deserr Require Import Base Pointer Kinds Value Prog Monitors.
 From Deserr.proofs Require Import ProgProofs.
 
+(** [Leaves ok p]: every possible outcome of [p] satisfies [ok]; moreover a call that is not made
+    to the error type (a user-function invocation) has no answer: what follows does not depend
+    on the scripted answer or on the position of that call. *)
 Inductive Leaves {X} (ok : X -> Prop) : prog X -> Prop :=
 | Leaves_ret x : ok x -> Leaves ok (Ret x)
-| Leaves_op c k : (forall i ans, Leaves ok (k i ans)) -> Leaves ok (Op c k).
+| Leaves_op c k :
+    (creates c = false -> forall i a i' a', k i a = k i' a') ->
+    (forall i ans, Leaves ok (k i ans)) -> Leaves ok (Op c k).
+
+(** for calls to the error type the first premise is vacuous *)
+Lemma Leaves_call {X} (ok : X -> Prop) c k :
+  creates c = true -> (forall i ans, Leaves ok (k i ans)) -> Leaves ok (Op c k).
+Proof. intros Hc Hk. constructor; [rewrite Hc; discriminate|exact Hk]. Qed.
 
 Lemma leaves_sound {X} (ok : X -> Prop) (p : prog X) :
   Leaves ok p -> forall script s, ok (fst (run script p s)).
-Proof. induction 1 as [x Hx | c k Hk IH]; intros script s; cbn [run]; [exact Hx|apply IH]. Qed.
+Proof. induction 1 as [x Hx | c k Hu Hk IH]; intros script s; cbn [run]; [exact Hx|apply IH]. Qed.
 
 Lemma leaves_bind {X Y} (okp : X -> Prop) (ok : Y -> Prop) (p : prog X) (f : X -> prog Y) :
   Leaves okp p -> (forall x, okp x -> Leaves ok (f x)) -> Leaves ok (bind p f).
 Proof.
-  intros Hp Hf. induction Hp as [x Hx | c k Hk IH]; cbn [bind]; [apply Hf; exact Hx|].
-  constructor. intros i ans. apply IH.
+  intros Hp Hf. induction Hp as [x Hx | c k Hu Hk IH]; cbn [bind]; [apply Hf; exact Hx|].
+  constructor; [|intros i ans; apply IH].
+  intros Hc i a i' a'. rewrite (Hu Hc i a i' a'). reflexivity.
 Qed.
 
 Lemma leaves_weaken {X} (ok1 ok2 : X -> Prop) (p : prog X) :
   (forall x, ok1 x -> ok2 x) -> Leaves ok1 p -> Leaves ok2 p.
 Proof.
-  intros Hw. induction 1 as [x Hx | c k Hk IH]; constructor; [apply Hw; exact Hx|exact IH].
+  intros Hw. induction 1 as [x Hx | c k Hu Hk IH]; constructor; [apply Hw; exact Hx|exact Hu|exact IH].
 Qed.
 
 Lemma leaves_user {X} (ok : X -> Prop) fn args (k : prog X) :
   Leaves ok k -> Leaves ok (user_call fn args k).
-Proof. intros H. constructor. intros _ _. exact H. Qed.
+Proof. intros H. constructor; [reflexivity|]. intros _ _. exact H. Qed.
+
+(** ** the first call to the error type does not depend on the answers *)
+
+(** the first call made to the error type from position [i] on, with its position *)
+Fixpoint first_created (tr : list call) (i : N) : option (N * call) :=
+  match tr with
+  | [] => None
+  | c :: r => if creates c then Some (i, c) else first_created r (N.succ i)
+  end.
+
+Lemma first_created_app tr1 tr2 i :
+  first_created (tr1 ++ tr2) i =
+  match first_created tr1 i with
+  | Some x => Some x
+  | None => first_created tr2 (i + N.of_nat (List.length tr1))
+  end.
+Proof.
+  revert i. induction tr1 as [|c tr1 IH]; intros i; cbn [app first_created List.length].
+  - rewrite N.add_0_r. reflexivity.
+  - destruct (creates c); [reflexivity|]. rewrite IH.
+    replace (N.succ i + N.of_nat (List.length tr1))%N with (i + N.of_nat (S (List.length tr1)))%N by lia.
+    reflexivity.
+Qed.
+
+(** what a run appends to the trace *)
+Definition ext_of {X} script (p : prog X) (s : list call) : list call :=
+  skipn (List.length s) (snd (run script p s)).
+
+Lemma skipn_exact {A} (l r : list A) : skipn (List.length l) (l ++ r) = r.
+Proof. induction l as [|x l IH]; [reflexivity|exact IH]. Qed.
+
+Lemma ext_of_op {X} script c (k : N -> bool -> prog X) s :
+  ext_of script (Op c k) s =
+  c :: ext_of script (k (N.of_nat (List.length s)) (script (N.of_nat (List.length s)))) (s ++ [c]).
+Proof.
+  unfold ext_of. cbn [run].
+  destruct (run_extends script (k (N.of_nat (List.length s)) (script (N.of_nat (List.length s)))) (s ++ [c])) as [e He].
+  rewrite He. rewrite skipn_exact. rewrite <- app_assoc. rewrite skipn_exact. reflexivity.
+Qed.
+
+Theorem first_report_script_independent {X} (ok : X -> Prop) (p : prog X) :
+  Leaves ok p ->
+  forall sc1 sc2 s,
+    first_created (ext_of sc1 p s) (N.of_nat (List.length s))
+    = first_created (ext_of sc2 p s) (N.of_nat (List.length s)).
+Proof.
+  induction 1 as [x Hx | c k Hu Hk IH]; intros sc1 sc2 s.
+  - reflexivity.
+  - rewrite !ext_of_op. cbn [first_created]. destruct (creates c) eqn:Ec; [reflexivity|].
+    set (i := N.of_nat (List.length s)).
+    rewrite (Hu eq_refl i (sc2 i) i (sc1 i)).
+    replace (N.succ i) with (N.of_nat (List.length (s ++ [c]))) by (rewrite app_length; cbn; unfold i; lia).
+    apply IH.
+Qed.
+
+Lemma first_created_find tr i : option_map snd (first_created tr i) = find creates tr.
+Proof.
+  revert i. induction tr as [|c tr IH]; intros i; cbn [first_created find]; [reflexivity|].
+  destruct (creates c); [reflexivity|apply IH].
+Qed.
+
+Lemma first_created_none tr i : first_created tr i = None <-> existsb creates tr = false.
+Proof.
+  revert i. induction tr as [|c tr IH]; intros i; cbn [first_created existsb]; [tauto|].
+  destruct (creates c); cbn [orb]; [split; discriminate|apply IH].
+Qed.
+
+(** a run that never calls the error type is the same run under every script *)
+Theorem silent_run_script_independent {X} (ok : X -> Prop) (p : prog X) :
+  Leaves ok p ->
+  forall sc1 sc2 s,
+    existsb creates (ext_of sc1 p s) = false -> run sc1 p s = run sc2 p s.
+Proof.
+  induction 1 as [x Hx | c k Hu Hk IH]; intros sc1 sc2 s Hsil; [reflexivity|].
+  rewrite ext_of_op in Hsil. cbn [existsb] in Hsil. apply Bool.orb_false_iff in Hsil.
+  destruct Hsil as [Hc Hrest]. cbn [run].
+  set (i := N.of_nat (List.length s)) in *.
+  rewrite (Hu Hc i (sc2 i) i (sc1 i)). apply IH. exact Hrest.
+Qed.
+
+Lemma run_ext_of {X} script (p : prog X) s : snd (run script p s) = s ++ ext_of script p s.
+Proof.
+  unfold ext_of. destruct (run_extends script p s) as [e He]. rewrite He, skipn_exact. reflexivity.
+Qed.
 
 (** every call that the program can make satisfies [P] *)
 Inductive Calls {X} (P : call -> Prop) : prog X -> Prop :=
